@@ -12,6 +12,11 @@ def call(ex, st, fn, args, kw, node):
     from .symexec import Opaque
     if any(isinstance(a, Opaque) for a in args) and name in ("sum", "len", "str", "repr", "_compat.text_repr", "sorted", "list"):
         yield st, Opaque(); return
+    if name in ("os.path.splitext", "os.path.basename", "os.path.join", "os.path.dirname") and all(isinstance(a, str) for a in args):
+        import os
+        yield st, getattr(os.path, name.split(".")[-1])(*args); return
+    if name == "os.path.basename" and isinstance(args[0], Sym):
+        yield st, Sym(STR, ex.absfun_s("path_basename", [z3.StringSort()], z3.StringSort())(args[0].z)); return
     if name == "len":
         v = args[0]
         if isinstance(v, Sym) and v.ty.kind == "opt":
@@ -134,6 +139,16 @@ def call(ex, st, fn, args, kw, node):
     if name == "tokenize.ISEOF":
         v = args[0]; import token as _tk
         yield st, (Sym(BOOL, lift(v).z == _tk.ENDMARKER) if isinstance(v, Sym) else v == _tk.ENDMARKER); return
+    if name == "chr":
+        v = args[0]
+        if isinstance(v, int):
+            try: yield st, chr(v)
+            except (ValueError, OverflowError) as e: yield st, Raise(ex.new_builtin_exc(st, type(e).__name__, [str(e)]))
+            return
+        z = lift(v).z; ok = z3.And(z >= 0, z <= 0x10FFFF)
+        if feasible(st.pc, z3.Not(ok)):
+            sb = st.copy(); sb.pc.append(z3.Not(ok)); yield sb, Raise(ex.new_builtin_exc(sb, "ValueError", ["chr() arg not in range(0x110000)"]))
+        st.pc.append(ok); yield st, Sym(STR, z3.StrFromCode(z)); return
     if name == "ord":
         v = args[0]
         if isinstance(v, str): yield st, ord(v); return
